@@ -307,7 +307,9 @@ def concretise(case: dict, cr: Crafter, variant: int):
     if codec in ("none", "identity", "unknown"):
         body = plain
         capv = 0 if cap == "none" else rel_cap(len(body), enc)
-        hdr = None if codec == "none" else rng.choice(SPELL["identity"]) if codec == "identity" else rng.choice(UNKNOWN)
+        # "none" = no coding named: the header is absent, or present with an empty / blank value
+        hdr = (rng.choice([None, None, "", " "]) if codec == "none" else rng.choice(SPELL["identity"]) if codec == "identity"
+               else rng.choice(UNKNOWN))
         return capv, hdr, body, plain, False, path
     if codec == "disabled":
         body = U.zstd_frame(plain, sized=True)
